@@ -301,7 +301,7 @@ func vfShrink(t *testing.T, plan *vfPlan, v vfViolation, budget int) (*vfPlan, i
 	cur := *plan
 	cur.Steps = append([]vfStep(nil), plan.Steps...)
 	runs := 0
-	fails := func(p *vfPlan) bool {
+	once := func(p *vfPlan) bool {
 		runs++
 		q := *p
 		q.Tape = append([]int(nil), p.Tape...)
@@ -316,6 +316,25 @@ func vfShrink(t *testing.T, plan *vfPlan, v vfViolation, budget int) (*vfPlan, i
 			}
 		}
 		return false
+	}
+	// The simulator's choices replay exactly; the code under test may still depend on something the simulator does
+	// not own (map iteration order).  If the unchanged plan does not show the violation again every time, a
+	// reduction is accepted only when it shows it several times in a row, so that the minimised plan stays likely to fail.
+	confirm := 1
+	for i := 0; i < 2; i++ {
+		c := cur
+		if !once(&c) {
+			confirm = 3
+			break
+		}
+	}
+	fails := func(p *vfPlan) bool {
+		for i := 0; i < confirm; i++ {
+			if !once(p) {
+				return false
+			}
+		}
+		return true
 	}
 	// cut everything after the violating step
 	if v.Step+1 < len(cur.Steps) {
